@@ -191,6 +191,9 @@ func (f *Fam) Gen(r *rand.Rand, i int) string {
 		if r.Intn(2) == 0 {
 			ns = r.Int63n(9000000000000000000) - 4000000000000000000
 		}
+		if r.Intn(3) == 0 { // the same instant carried in another time zone: the key is a function of the instant
+			return fmt.Sprintf("tkeyz %d %d", ns, []int{3600, -3600, 19800, -43200, 50400, 1, 0}[r.Intn(7)])
+		}
 		return fmt.Sprintf("tkey %d", ns)
 	case 13:
 		return "hexaddr " + hx(genAddr(r))
@@ -365,9 +368,17 @@ func (f *Fam) Exec(op string) (obs string, fails []common.Failure) {
 			r = "err"
 		}
 		return r, nil
-	case "tkey":
+	case "tkey", "tkeyz":
 		ns, _ := strconv.ParseInt(w[1], 10, 64)
 		t := time.Unix(0, ns).UTC()
+		if w[0] == "tkeyz" {
+			off, _ := strconv.Atoi(w[2])
+			tz := t.In(time.FixedZone("z", off))
+			if kz := posTypes.KeyForUnstakingValidators(tz); !bytes.Equal(kz, posTypes.KeyForUnstakingValidators(t)) && t.Year() >= 1 && t.Year() <= 9998 {
+				fail("key-roundtrip", "C20:time-key-depends-on-zone", fmt.Sprintf("%s: the key of the instant differs between UTC and UTC%+ds", op, off))
+			}
+			t = tz
+		}
 		k := posTypes.KeyForUnstakingValidators(t)
 		if back, err := sdk.ParseTimeBytes(k[1:]); err != nil || !back.Equal(t) {
 			if t.Year() >= 0 && t.Year() <= 9999 {
